@@ -20,7 +20,7 @@ use std::sync::{Arc, Mutex};
 pub fn def() -> PropDef {
     PropDef {
         id: "C16",
-        rule: "2 threads x scripts of <=3 steps and 3 threads x scripts of <=2 steps over {fail with one of nine messages through seven table entries (raw_name_from_str and rename fail in two ways each; set_raw_name, delete and set_name fail inside an iteration callback), succeed, read description through the thread's last CErr*, look again at the description text retrieved earlier}; every interleaving of the steps (step-level points, unbounded) and, with the library's yield points around the error store enabled, every interleaving with at most 2 preemptions; each execution runs on real OS threads under a baton scheduler and is compared with the per-thread expectation; distinct classes = (threads, script shapes, whether a foreign failure lies between a failure and its read)",
+        rule: "2 threads x scripts of <=3 steps and 3 threads x scripts of <=2 steps over {fail with one of nine messages through seven table entries (raw_name_from_str and rename fail in two ways each; set_raw_name, delete and set_name fail inside an iteration callback), succeed, read description through the thread's last CErr*, look again at the description text retrieved earlier}; every interleaving of the steps (step-level points, unbounded) and, with the library's yield points around the error store enabled, every interleaving with at most 2 preemptions; the same step-level exploration with all threads working on ONE packet handed from thread to thread; each execution runs on real OS threads under a baton scheduler and is compared with the per-thread expectation; distinct classes = (threads, script shapes, own or shared packet, whether a foreign failure lies between a failure and its read)",
         run,
         replay,
         bounds: |t| json!({"threads": [2, 3], "steps_2_threads": t.pick(3, 4), "steps_3_threads": 2, "preemption_bound_with_library_points": t.pick(2, 3), "max_executions_per_tuple": 20000}),
@@ -30,7 +30,7 @@ pub fn def() -> PropDef {
         nshards: 16,
         post: |rep, _| {
             let mut v = vec![];
-            for need in ["threads=2", "threads=3", "foreign_between=1", "libpoints=1"] {
+            for need in ["threads=2", "threads=3", "foreign_between=1", "libpoints=1", "shared=1 foreign_between=1"] {
                 if !rep.classes.keys().any(|k| k.contains(need)) {
                     v.push(format!("no explored execution with {}", need));
                 }
@@ -78,8 +78,14 @@ fn base_packet() -> Vec<u8> {
     encode(&m, Strategy::Plain)
 }
 
+/// one packet handed to every thread of an execution; the baton serialises all access to it
+struct SharedPacket(std::cell::UnsafeCell<ParsedPacket>);
+unsafe impl Sync for SharedPacket {}
+unsafe impl Send for SharedPacket {}
+
 struct ThreadCtx {
-    pp: ParsedPacket,
+    _own: Option<Box<ParsedPacket>>,
+    pp: *mut ParsedPacket,
     last_err: *const CErr,
     last_desc: *const libc::c_char,
     last_msg: Option<String>,
@@ -94,11 +100,11 @@ fn do_step(t: &FnTable, c: &mut ThreadCtx, s: Step) -> Result<String, String> {
                 let rc = match k {
                     0 => {
                         let txt = CString::new("this is not a record").unwrap();
-                        (t.add_to_answer)(&mut c.pp, &mut err, txt.as_ptr())
+                        (t.add_to_answer)(&mut *c.pp, &mut err, txt.as_ptr())
                     }
                     1 => {
                         let txt = CString::new("x. 1 IN A 1.2.3.4").unwrap();
-                        (t.add_to_question)(&mut c.pp, &mut err, txt.as_ptr())
+                        (t.add_to_question)(&mut *c.pp, &mut err, txt.as_ptr())
                     }
                     2 | 4 => {
                         let mut raw = [0u8; 256];
@@ -141,20 +147,20 @@ fn do_step(t: &FnTable, c: &mut ThreadCtx, s: Step) -> Result<String, String> {
                         // make sure there is an answer to iterate over
                         let mut e0: *const CErr = std::ptr::null();
                         let txt = CString::new("it. 1 IN A 9.9.9.8").unwrap();
-                        let _ = (t.add_to_answer)(&mut c.pp, &mut e0, txt.as_ptr());
+                        let _ = (t.add_to_answer)(&mut *c.pp, &mut e0, txt.as_ptr());
                         let mut cbs = Cb { t, k, err: std::ptr::null(), rc: 0 };
-                        (t.iter_answer)(&mut c.pp, cb, &mut cbs as *mut Cb as *mut libc::c_void);
+                        (t.iter_answer)(&mut *c.pp, cb, &mut cbs as *mut Cb as *mut libc::c_void);
                         err = cbs.err;
                         cbs.rc
                     }
                     5 => {
                         let tgt = [1u8; 300];
                         let src = [1u8, b'z', 0];
-                        (t.rename_with_raw_names)(&mut c.pp, &mut err, tgt.as_ptr(), tgt.len(), src.as_ptr(), src.len(), false)
+                        (t.rename_with_raw_names)(&mut *c.pp, &mut err, tgt.as_ptr(), tgt.len(), src.as_ptr(), src.len(), false)
                     }
                     _ => {
                         let tgt = [1u8, b'z', 0];
-                        (t.rename_with_raw_names)(&mut c.pp, &mut err, tgt.as_ptr(), tgt.len(), tgt.as_ptr(), 0, false)
+                        (t.rename_with_raw_names)(&mut *c.pp, &mut err, tgt.as_ptr(), tgt.len(), tgt.as_ptr(), 0, false)
                     }
                 };
                 if rc != -1 || err.is_null() {
@@ -170,7 +176,7 @@ fn do_step(t: &FnTable, c: &mut ThreadCtx, s: Step) -> Result<String, String> {
             Step::Succeed => {
                 let mut err: *const CErr = std::ptr::null();
                 let txt = CString::new("ok. 1 IN A 9.9.9.9").unwrap();
-                let rc = (t.add_to_answer)(&mut c.pp, &mut err, txt.as_ptr());
+                let rc = (t.add_to_answer)(&mut *c.pp, &mut err, txt.as_ptr());
                 if rc != 0 {
                     return Err(format!("succeeding call returned {}", rc));
                 }
@@ -199,7 +205,8 @@ fn do_step(t: &FnTable, c: &mut ThreadCtx, s: Step) -> Result<String, String> {
 /// the message each failing step produces, taken single-threaded (and equal to the native Display)
 fn expected_messages() -> Vec<String> {
     let t = fn_table();
-    let mut c = ThreadCtx { pp: crate::subj::parse(&base_packet()).unwrap(), last_err: std::ptr::null(), last_desc: std::ptr::null(), last_msg: None };
+    let mut own = Box::new(crate::subj::parse(&base_packet()).unwrap());
+    let mut c = ThreadCtx { pp: &mut *own, _own: Some(own), last_err: std::ptr::null(), last_desc: std::ptr::null(), last_msg: None };
     (0..9u8)
         .map(|k| {
             do_step(&t, &mut c, Step::Fail(k)).unwrap();
@@ -216,15 +223,19 @@ struct Obs {
 }
 
 /// One execution of the scripts under a schedule. Returns (exec, observations in global order).
-fn execute(scripts: &[Vec<Step>], libpoints: bool, prefix: &[usize]) -> (Exec, Vec<Obs>) {
+fn execute(scripts: &[Vec<Step>], libpoints: bool, shared: bool, prefix: &[usize]) -> (Exec, Vec<Obs>) {
     let log: Arc<Mutex<Vec<Obs>>> = Arc::new(Mutex::new(vec![]));
+    let common = Arc::new(SharedPacket(std::cell::UnsafeCell::new(crate::subj::parse(&base_packet()).unwrap())));
     let mut bodies: Vec<Body> = vec![];
     for (ti, sc) in scripts.iter().enumerate() {
         let sc = sc.clone();
         let log = log.clone();
+        let common = common.clone();
         bodies.push(Box::new(move |h: &Handle| {
             let t = fn_table();
-            let mut c = ThreadCtx { pp: crate::subj::parse(&base_packet()).unwrap(), last_err: std::ptr::null(), last_desc: std::ptr::null(), last_msg: None };
+            let mut own = Box::new(crate::subj::parse(&base_packet()).unwrap());
+            let pp: *mut ParsedPacket = if shared { common.0.get() } else { &mut *own };
+            let mut c = ThreadCtx { pp, _own: Some(own), last_err: std::ptr::null(), last_desc: std::ptr::null(), last_msg: None };
             if libpoints {
                 let h2 = h.clone();
                 verif_hooks::set_callback(Some(Box::new(move |kind| {
@@ -315,7 +326,7 @@ fn tuple_str(scripts: &[Vec<Step>]) -> String {
     scripts.iter().map(|s| s.iter().map(|x| step_char(*x)).collect::<String>()).collect::<Vec<_>>().join("|")
 }
 
-fn explore_tuple(ctx: &mut Ctx, rep: &mut Report, scripts: &[Vec<Step>], libpoints: bool, bound: usize, exp: &[String]) {
+fn explore_tuple(ctx: &mut Ctx, rep: &mut Report, scripts: &[Vec<Step>], libpoints: bool, shared: bool, bound: usize, exp: &[String]) {
     let mut ex = Explorer { bound, max_execs: 20000, execs: 0, capped: false };
     let sc: Vec<Vec<Step>> = scripts.to_vec();
     let obs_cell: std::cell::RefCell<Vec<Obs>> = std::cell::RefCell::new(vec![]);
@@ -330,9 +341,9 @@ fn explore_tuple(ctx: &mut Ctx, rep: &mut Report, scripts: &[Vec<Step>], libpoin
             break;
         }
         if ctx.journaling() {
-            ctx.journal(|| json!({"scripts": tuple_str(&sc), "libpoints": libpoints, "schedule": prefix}));
+            ctx.journal(|| json!({"scripts": tuple_str(&sc), "libpoints": libpoints, "shared": shared, "schedule": prefix}));
         }
-        let (x, obs) = execute(&sc, libpoints, &prefix);
+        let (x, obs) = execute(&sc, libpoints, shared, &prefix);
         ex.execs += 1;
         rep.transitions += x.points.len() as u64;
         *obs_cell.borrow_mut() = obs.clone();
@@ -382,9 +393,9 @@ fn explore_tuple(ctx: &mut Ctx, rep: &mut Report, scripts: &[Vec<Step>], libpoin
         rep.cap(format!("execution cap or time budget reached for a script tuple (e.g. {})", tuple_str(&sc)));
     }
     let shape: String = sc.iter().map(|s| s.len().to_string()).collect::<Vec<_>>().join("+");
-    rep.class(&format!("threads={} steps={} libpoints={} foreign_between={} orders={}", sc.len(), shape, libpoints as u8, foreign as u8, outcomes.len().min(50)));
+    rep.class(&format!("threads={} steps={} libpoints={} shared={} foreign_between={} orders={}", sc.len(), shape, libpoints as u8, shared as u8, foreign as u8, outcomes.len().min(50)));
     if let Some((sig, what, schedule)) = violation {
-        rep.violation(&sig, format!("scripts {}: {}", tuple_str(&sc), what), json!({"scripts": tuple_str(&sc), "libpoints": libpoints, "schedule": schedule}));
+        rep.violation(&sig, format!("scripts {}: {}", tuple_str(&sc), what), json!({"scripts": tuple_str(&sc), "libpoints": libpoints, "shared": shared, "schedule": schedule}));
     } else if rep.samples.len() < MAX_SAMPLES && foreign {
         rep.sample(|| json!({"scripts": tuple_str(&sc), "libpoints": libpoints, "executions": ex.execs, "observation_order": obs_cell.borrow().iter().map(|o| format!("t{}:{}", o.thread, o.text)).collect::<Vec<_>>()}));
     }
@@ -405,7 +416,7 @@ fn run(ctx: &mut Ctx, rep: &mut Report) {
             if !ctx.mine(gi) || ctx.timed_out() {
                 continue;
             }
-            explore_tuple(ctx, rep, &[a.clone(), b.clone()], false, 99, &exp);
+            explore_tuple(ctx, rep, &[a.clone(), b.clone()], false, false, 99, &exp);
         }
     }
     // 2 threads with the library's points, preemption bound
@@ -416,7 +427,7 @@ fn run(ctx: &mut Ctx, rep: &mut Report) {
             if !ctx.mine(gi) || ctx.timed_out() {
                 continue;
             }
-            explore_tuple(ctx, rep, &[a.clone(), b.clone()], true, ctx.tier.pick(2, 3), &exp);
+            explore_tuple(ctx, rep, &[a.clone(), b.clone()], true, false, ctx.tier.pick(2, 3), &exp);
         }
     }
     // 3 threads: a failure/read thread against two failing threads
@@ -430,7 +441,31 @@ fn run(ctx: &mut Ctx, rep: &mut Report) {
                 if !ctx.mine(gi) || ctx.timed_out() {
                     continue;
                 }
-                explore_tuple(ctx, rep, &[a.clone(), b.clone(), c.clone()], false, 99, &exp);
+                explore_tuple(ctx, rep, &[a.clone(), b.clone(), c.clone()], false, false, 99, &exp);
+            }
+        }
+    }
+    // 2 and 3 threads working on ONE packet, handed from thread to thread at step boundaries (access to it
+    // is serialised by the baton; the error descriptions must stay per thread all the same)
+    let on_packet = |s: &Vec<Step>| !s.iter().any(|x| matches!(x, Step::Fail(k) if [2u8, 4, 7].contains(k)));
+    let s_sh: Vec<Vec<Step>> = scripts_upto(2).into_iter().filter(|s| on_packet(s)).collect();
+    for a in &s_sh {
+        for b in &s_sh {
+            gi += 1;
+            if !ctx.mine(gi) || ctx.timed_out() {
+                continue;
+            }
+            explore_tuple(ctx, rep, &[a.clone(), b.clone()], false, true, 99, &exp);
+        }
+    }
+    for a in readers.iter().filter(|s| on_packet(s)) {
+        for b in [vec![Step::Fail(1)], vec![Step::Fail(0), Step::Read]] {
+            for c in [vec![Step::Fail(3)], vec![Step::Fail(5), Step::Fail(6)]] {
+                gi += 1;
+                if !ctx.mine(gi) || ctx.timed_out() {
+                    continue;
+                }
+                explore_tuple(ctx, rep, &[a.clone(), b.clone(), c.clone()], false, true, 99, &exp);
             }
         }
     }
@@ -442,11 +477,12 @@ fn run(ctx: &mut Ctx, rep: &mut Report) {
 fn replay(case: &Value) -> Result<String, String> {
     let scripts: Vec<Vec<Step>> = case["scripts"].as_str().unwrap_or("").split('|').map(parse_script).collect();
     let libpoints = case["libpoints"].as_bool().unwrap_or(false);
+    let shared = case["shared"].as_bool().unwrap_or(false);
     let schedule: Vec<usize> = case["schedule"].as_array().map(|a| a.iter().map(|x| x.as_u64().unwrap_or(0) as usize).collect()).unwrap_or_default();
     let exp = expected_messages();
     let mut results = vec![];
     for round in 0..2 {
-        let (x, obs) = execute(&scripts, libpoints, &schedule);
+        let (x, obs) = execute(&scripts, libpoints, shared, &schedule);
         if round == 0 {
             for o in &obs {
                 println!("  t{} step {}: {}", o.thread, o.step, o.text);
